@@ -642,13 +642,15 @@ class Path:
                  'axioms', 'extra', 'frames', 'notes', 'links', 'extra_info')
 
 
-def explore(run, assume=(), max_paths=4000, on_path=None, prefix=()):
+def explore(run, assume=(), max_paths=4000, on_path=None, prefix=(), deadline=None):
     """run the callable on every feasible path.  `run` is re-executed from scratch for each path."""
     E.assume = list(assume)
     E.reset_all()
     work = [list(prefix)]     # a forced prefix shards the path space (infeasible shards yield no path)
     paths = []
     while work:
+        if deadline is not None and time.time() > deadline:
+            raise EngineUnsupported('exploration time budget exhausted')
         forced = work.pop()
         E.begin_path(forced)
         E.pending = []
